@@ -56,7 +56,15 @@ func (s Segment) Stat(params index.Params) (Stats, error) {
 	}
 
 	indexSize, indexMessages, err := index.Stat(s.Index, s.Offset, params)
-	if err != nil {
+	switch {
+	case errors.Is(err, os.ErrNotExist):
+		// the index is derived data and might be missing, count the messages in the log
+		indexSize = 0
+		indexMessages, err = s.countMessages()
+		if err != nil {
+			return Stats{}, fmt.Errorf("stat count: %w", err)
+		}
+	case err != nil:
 		return Stats{}, fmt.Errorf("stat index: %w", err)
 	}
 
@@ -65,6 +73,28 @@ func (s Segment) Stat(params index.Params) (Stats, error) {
 		Messages: indexMessages,
 		Size:     dataStat.Size() + indexSize,
 	}, nil
+}
+
+func (s Segment) countMessages() (int, error) {
+	log, err := message.OpenReader(s.Log, s.Offset)
+	if err != nil {
+		return 0, err
+	}
+	defer func() { _ = log.Close() }()
+
+	var count = 0
+	var position = log.InitialPosition()
+	for {
+		_, nextPosition, err := log.Read(position)
+		if errors.Is(err, io.EOF) {
+			return count, nil
+		} else if err != nil {
+			return 0, err
+		}
+
+		count++
+		position = nextPosition
+	}
 }
 
 func (s Segment) Check(params index.Params) error {
